@@ -294,6 +294,43 @@ class Gen:
         return self.bool_leaf()
 
 
+COST_CAP = 150000     # table rows x sub-formula evaluations per row
+
+
+def slot_bits(h):
+    """Number of dd bits of a variable (without the constant sign bit)."""
+    if h == 'bool':
+        return 1
+    lo, hi = h
+    w = max(abs(lo), abs(hi)).bit_length() or 1
+    return w + (1 if lo < 0 <= hi else 0)
+
+
+def eval_cost(e, decl, defs=None):
+    """Sub-formula evaluations needed for one row of the truth table: a
+    quantifier multiplies by the number of values of its variables, a
+    defined name costs its definition at every use."""
+    defs = defs or {}
+    k = e[0]
+    if k in ('true', 'false', 'num', 'var'):
+        return 1
+    if k == 'op':
+        return 1 + defs.get(e[1], 1)
+    if k == 'let':
+        env = dict(defs)
+        for n, d in e[1]:
+            env[n] = eval_cost(d, decl, env)
+        return 1 + eval_cost(e[2], decl, env)
+    if k == 'quant':
+        n = 1
+        for v, _ in e[2]:
+            n *= 1 << slot_bits(decl[v])
+        return 1 + n * eval_cost(e[3], decl, defs)
+    w = {'arith': 8}.get(k, 1)
+    return w + sum(eval_cost(x, decl, defs) for x in e[1:]
+                   if isinstance(x, tuple))
+
+
 def random_decl(rng, maxw):
     n_int = rng.choice([1, 2, 2, 2, 3])
     n_bool = rng.choice([0, 1, 1, 2])
@@ -331,8 +368,10 @@ def random_case(rng, maxw, max_bits, max_depth=4):
         if defs and not _uses_ops(tree, {n for n, _ in defs}):
             tree = ('bin', '/\\', tree, ('op', defs[-1][0]))
         slots = fol_ast.free_slots(fol_ast.with_defs(defs, tree), decl)
-        bits = sum(1 if decl[n] == 'bool' else int_width(decl[n]) for n, _ in slots)
-        if bits <= max_bits and slots:
+        bits = sum(slot_bits(decl[n]) for n, _ in slots)
+        full = fol_ast.with_defs(defs, tree)
+        if bits <= max_bits and slots and \
+                (1 << bits) * eval_cost(full, decl) <= COST_CAP:
             return dict(kind='pred', decl=decl, tree=tree, defs=defs,
                         cls='random')
     raise RuntimeError('generator could not fit the bit budget')
@@ -440,8 +479,8 @@ def reject_case(rng, maxw, max_bits):
         else:
             tree = ('let', [('p', ('arith', '+', A, ('num', 1)))], base)
     slots = fol_ast.free_slots(tree, decl)
-    bits = sum(1 if decl[n] == 'bool' else int_width(decl[n]) for n, _ in slots)
-    if bits > max_bits:
+    bits = sum(slot_bits(decl[n]) for n, _ in slots)
+    if bits > max_bits or (1 << bits) * eval_cost(tree, decl) > COST_CAP:
         return reject_case(rng, maxw, max_bits)
     return dict(kind='pred', decl=decl, tree=tree, defs=[],
                 cls='boundary:' + kind)
